@@ -72,6 +72,7 @@ def run_determinism(prop: str | None, seed: int) -> int:
     """Run each quick check several times in fresh interpreters under different driver hash seeds / worker counts and
     compare the run digests that the checks put into their evidence."""
     bad = 0
+    record = {}
     for pid in ([prop] if prop else ["C20", "C14"]):
         digs = []
         for hs, workers in ((0, 16), (12345, 16), (777, 3)):
@@ -84,9 +85,14 @@ def run_determinism(prop: str | None, seed: int) -> int:
             d = [ln for ln in r.stdout.splitlines() if ln.startswith("RUN-DIGEST")]
             digs.append((hs, workers, r.returncode, d[-1] if d else "none"))
             log(f"determinism {pid}: driver PYTHONHASHSEED={hs} workers={workers} exit={r.returncode} {d[-1] if d else 'no digest'}")
+        record[pid] = [{"driver_PYTHONHASHSEED": d[0], "workers": d[1], "exit": d[2], "digest": d[3]} for d in digs]
         if len({d[3] for d in digs}) != 1 or any(d[3] == "none" for d in digs):
             bad += 1
             log(f"determinism {pid}: DIGESTS DIFFER")
+    out = os.path.join(common.VERIF, "selftest_determinism.json")
+    old = json.load(open(out)) if os.path.exists(out) else {}
+    old.update(record)
+    json.dump(old, open(out, "w"), indent=1, sort_keys=True)
     return 0 if not bad else 2
 
 
